@@ -64,79 +64,7 @@ func cleanAt(q string, i int) bool {
 	return true
 }
 
-// resolve, for a Dir that is a clean rooted path other than "/" (the precondition; see lemmaResolveNUL
-// for the clause that holds for every Dir): a name is rejected exactly when it has a NUL byte; what is
-// handed to filepath.Join is the root and a clean rooted path - no "..", "." or empty element
-// survives slashClean; the result is lexically inside d: d itself, or d followed by "/" and further
-// elements none of which is "..".
-//
-//@ func (Dir).resolve(d, name) (r)
-//@   requires len(d) > 1 && d[0] == '/' && (forall i int :: 0 <= i && i < len(d) && d[i] == '/' ==> (i+1 >= len(d) ==> len(d) == 1) && (i+1 < len(d) ==> d[i+1] != '/') && (i+1 < len(d) && d[i+1] == '.' ==> i+2 < len(d) && d[i+2] != '/') && (i+2 < len(d) && d[i+1] == '.' && d[i+2] == '.' ==> i+3 < len(d) && d[i+3] != '/'))
-//@   assert at call Join: len($elem) == 2 && $elem[0] == string(d)
-//@   ensures forall i int :: 0 <= i && i < len(name) && name[i] == 0 ==> r == ""
-//@   ensures r == "" ==> (exists i int :: 0 <= i && i < len(name) && name[i] == 0)
-//@   ensures r != "" ==> len(r) >= len(d)
-//@   ensures forall i int :: r != "" && 0 <= i && i < len(d) ==> r[i] == d[i]
-//@   ensures r != "" ==> len(r) == len(d) || (len(r) > len(d)+1 && r[len(d)] == '/')
-//@   ensures r != "" ==> (forall i int :: 0 <= i && i < len(r) && r[i] == '/' ==> (i+1 >= len(r) ==> len(r) == 1) && (i+1 < len(r) ==> r[i+1] != '/') && (i+1 < len(r) && r[i+1] == '.' ==> i+2 < len(r) && r[i+2] != '/') && (i+2 < len(r) && r[i+1] == '.' && r[i+2] == '.' ==> i+3 < len(r) && r[i+3] != '/'))
-
-// The five FileSystem methods of Dir, for a Dir that is a clean rooted path other than "/".
-// Call-site conditions: every path handed to the os package is lexically inside d (d itself, or d
-// followed by "/" and further elements, the whole in clean form, so without any ".." element);
-// os.RemoveAll and os.Rename only ever get paths strictly inside d, never d itself. A name with a
-// NUL byte makes every method return os.ErrNotExist without any call into the os package (ghost
-// counter oscalls); when no os function was called the error is ErrNotExist or ErrInvalid.
-//
-//@ func (Dir).Mkdir(d, ctx, name, perm) (err)
-//@   requires len(d) > 1 && d[0] == '/' && (forall i int :: 0 <= i && i < len(d) && d[i] == '/' ==> (i+1 >= len(d) ==> len(d) == 1) && (i+1 < len(d) ==> d[i+1] != '/') && (i+1 < len(d) && d[i+1] == '.' ==> i+2 < len(d) && d[i+2] != '/') && (i+2 < len(d) && d[i+1] == '.' && d[i+2] == '.' ==> i+3 < len(d) && d[i+3] != '/'))
-//@   ghost oscalls += 1 at call os.Mkdir
-//@   assert at call os.Mkdir: len($name) == len(d) || (len($name) > len(d)+1 && $name[len(d)] == '/')
-//@   assert at call os.Mkdir: forall i int :: 0 <= i && i < len(d) ==> $name[i] == d[i]
-//@   assert at call os.Mkdir: forall i int :: 0 <= i && i < len($name) && $name[i] == '/' ==> (i+1 >= len($name) ==> len($name) == 1) && (i+1 < len($name) ==> $name[i+1] != '/') && (i+1 < len($name) && $name[i+1] == '.' ==> i+2 < len($name) && $name[i+2] != '/') && (i+2 < len($name) && $name[i+1] == '.' && $name[i+2] == '.' ==> i+3 < len($name) && $name[i+3] != '/')
-//@   ensures forall i int :: 0 <= i && i < len(name) && name[i] == 0 ==> err == os.ErrNotExist && ghost(oscalls) == 0
-//@   ensures ghost(oscalls) == 0 ==> err == os.ErrNotExist
-//@
-//@ func (Dir).OpenFile(d, ctx, name, flag, perm) (f, err)
-//@   requires len(d) > 1 && d[0] == '/' && (forall i int :: 0 <= i && i < len(d) && d[i] == '/' ==> (i+1 >= len(d) ==> len(d) == 1) && (i+1 < len(d) ==> d[i+1] != '/') && (i+1 < len(d) && d[i+1] == '.' ==> i+2 < len(d) && d[i+2] != '/') && (i+2 < len(d) && d[i+1] == '.' && d[i+2] == '.' ==> i+3 < len(d) && d[i+3] != '/'))
-//@   ghost oscalls += 1 at call os.OpenFile
-//@   assert at call os.OpenFile: len($name) == len(d) || (len($name) > len(d)+1 && $name[len(d)] == '/')
-//@   assert at call os.OpenFile: forall i int :: 0 <= i && i < len(d) ==> $name[i] == d[i]
-//@   assert at call os.OpenFile: forall i int :: 0 <= i && i < len($name) && $name[i] == '/' ==> (i+1 >= len($name) ==> len($name) == 1) && (i+1 < len($name) ==> $name[i+1] != '/') && (i+1 < len($name) && $name[i+1] == '.' ==> i+2 < len($name) && $name[i+2] != '/') && (i+2 < len($name) && $name[i+1] == '.' && $name[i+2] == '.' ==> i+3 < len($name) && $name[i+3] != '/')
-//@   ensures forall i int :: 0 <= i && i < len(name) && name[i] == 0 ==> err == os.ErrNotExist && f == nil && ghost(oscalls) == 0
-//@   ensures ghost(oscalls) == 0 ==> err == os.ErrNotExist
-//@   allocates
-//@
-//@ func (Dir).Stat(d, ctx, name) (fi, err)
-//@   requires len(d) > 1 && d[0] == '/' && (forall i int :: 0 <= i && i < len(d) && d[i] == '/' ==> (i+1 >= len(d) ==> len(d) == 1) && (i+1 < len(d) ==> d[i+1] != '/') && (i+1 < len(d) && d[i+1] == '.' ==> i+2 < len(d) && d[i+2] != '/') && (i+2 < len(d) && d[i+1] == '.' && d[i+2] == '.' ==> i+3 < len(d) && d[i+3] != '/'))
-//@   ghost oscalls += 1 at call os.Stat
-//@   assert at call os.Stat: len($name) == len(d) || (len($name) > len(d)+1 && $name[len(d)] == '/')
-//@   assert at call os.Stat: forall i int :: 0 <= i && i < len(d) ==> $name[i] == d[i]
-//@   assert at call os.Stat: forall i int :: 0 <= i && i < len($name) && $name[i] == '/' ==> (i+1 >= len($name) ==> len($name) == 1) && (i+1 < len($name) ==> $name[i+1] != '/') && (i+1 < len($name) && $name[i+1] == '.' ==> i+2 < len($name) && $name[i+2] != '/') && (i+2 < len($name) && $name[i+1] == '.' && $name[i+2] == '.' ==> i+3 < len($name) && $name[i+3] != '/')
-//@   ensures forall i int :: 0 <= i && i < len(name) && name[i] == 0 ==> err == os.ErrNotExist && fi == nil && ghost(oscalls) == 0
-//@   ensures ghost(oscalls) == 0 ==> err == os.ErrNotExist
-//@   allocates
-//@
-//@ func (Dir).RemoveAll(d, ctx, name) (err)
-//@   requires len(d) > 1 && d[0] == '/' && (forall i int :: 0 <= i && i < len(d) && d[i] == '/' ==> (i+1 >= len(d) ==> len(d) == 1) && (i+1 < len(d) ==> d[i+1] != '/') && (i+1 < len(d) && d[i+1] == '.' ==> i+2 < len(d) && d[i+2] != '/') && (i+2 < len(d) && d[i+1] == '.' && d[i+2] == '.' ==> i+3 < len(d) && d[i+3] != '/'))
-//@   ghost oscalls += 1 at call os.RemoveAll
-//@   assert at call os.RemoveAll: len($path) > len(d)+1 && $path[len(d)] == '/'
-//@   assert at call os.RemoveAll: forall i int :: 0 <= i && i < len(d) ==> $path[i] == d[i]
-//@   assert at call os.RemoveAll: forall i int :: 0 <= i && i < len($path) && $path[i] == '/' ==> (i+1 >= len($path) ==> len($path) == 1) && (i+1 < len($path) ==> $path[i+1] != '/') && (i+1 < len($path) && $path[i+1] == '.' ==> i+2 < len($path) && $path[i+2] != '/') && (i+2 < len($path) && $path[i+1] == '.' && $path[i+2] == '.' ==> i+3 < len($path) && $path[i+3] != '/')
-//@   ensures forall i int :: 0 <= i && i < len(name) && name[i] == 0 ==> err == os.ErrNotExist && ghost(oscalls) == 0
-//@   ensures ghost(oscalls) == 0 ==> err == os.ErrNotExist || err == os.ErrInvalid
-//@
-//@ func (Dir).Rename(d, ctx, oldName, newName) (err)
-//@   requires len(d) > 1 && d[0] == '/' && (forall i int :: 0 <= i && i < len(d) && d[i] == '/' ==> (i+1 >= len(d) ==> len(d) == 1) && (i+1 < len(d) ==> d[i+1] != '/') && (i+1 < len(d) && d[i+1] == '.' ==> i+2 < len(d) && d[i+2] != '/') && (i+2 < len(d) && d[i+1] == '.' && d[i+2] == '.' ==> i+3 < len(d) && d[i+3] != '/'))
-//@   ghost oscalls += 1 at call os.Rename
-//@   assert at call os.Rename: len($oldpath) > len(d)+1 && $oldpath[len(d)] == '/'
-//@   assert at call os.Rename: forall i int :: 0 <= i && i < len(d) ==> $oldpath[i] == d[i]
-//@   assert at call os.Rename: forall i int :: 0 <= i && i < len($oldpath) && $oldpath[i] == '/' ==> (i+1 >= len($oldpath) ==> len($oldpath) == 1) && (i+1 < len($oldpath) ==> $oldpath[i+1] != '/') && (i+1 < len($oldpath) && $oldpath[i+1] == '.' ==> i+2 < len($oldpath) && $oldpath[i+2] != '/') && (i+2 < len($oldpath) && $oldpath[i+1] == '.' && $oldpath[i+2] == '.' ==> i+3 < len($oldpath) && $oldpath[i+3] != '/')
-//@   assert at call os.Rename: len($newpath) > len(d)+1 && $newpath[len(d)] == '/'
-//@   assert at call os.Rename: forall i int :: 0 <= i && i < len(d) ==> $newpath[i] == d[i]
-//@   assert at call os.Rename: forall i int :: 0 <= i && i < len($newpath) && $newpath[i] == '/' ==> (i+1 >= len($newpath) ==> len($newpath) == 1) && (i+1 < len($newpath) ==> $newpath[i+1] != '/') && (i+1 < len($newpath) && $newpath[i+1] == '.' ==> i+2 < len($newpath) && $newpath[i+2] != '/') && (i+2 < len($newpath) && $newpath[i+1] == '.' && $newpath[i+2] == '.' ==> i+3 < len($newpath) && $newpath[i+3] != '/')
-//@   ensures forall i int :: 0 <= i && i < len(oldName) && oldName[i] == 0 ==> err == os.ErrNotExist && ghost(oscalls) == 0
-//@   ensures forall i int :: 0 <= i && i < len(newName) && newName[i] == 0 ==> err == os.ErrNotExist && ghost(oscalls) == 0
-//@   ensures ghost(oscalls) == 0 ==> err == os.ErrNotExist || err == os.ErrInvalid
+// Dir.resolve and the five FileSystem methods of Dir: contracts in verif_dav2.go (every Dir value).
 
 // lemmaResolveNUL: for EVERY Dir value (no precondition on d) a name with a NUL byte resolves to ""
 // (which every Dir method turns into os.ErrNotExist before any os call, see above). The body of
@@ -187,28 +115,7 @@ func lemmaResolveNUL(d Dir, name string, k int) (ok bool) {
 //@   ensures  forall k int :: 0 <= k && k < n ==> p[k] == old(f.n.data[f.pos+k])
 //@   modifies f.pos, elems(p)
 
-// Write (not in the green set: the no-panic sweep fails, candidate defect F8): a directory cannot be
-// written; otherwise all of p is written at pos: the file grows to max(len, pos+len(p)), the bytes at
-// [pos, pos+len(p)) are p, bytes before pos are kept, a hole between the old end and pos reads as zero,
-// bytes after the written range are kept.
-//
-//@ func (*memFile).Write(f, p) (n, err)
-//@   requires f != nil && f.n != nil && f.pos >= 0
-//@   ensures  f.pos >= 0
-//@   ensures  f.n.mode.IsDir() ==> n == 0 && err == os.ErrInvalid && f.pos == old(f.pos) && len(f.n.data) == old(len(f.n.data))
-//@   ensures  !f.n.mode.IsDir() ==> n == len(p) && err == nil && f.pos == old(f.pos) + len(p)
-//@   ensures  !f.n.mode.IsDir() ==> len(f.n.data) == max(old(len(f.n.data)), old(f.pos) + len(p))
-//@   ensures  forall k int :: !f.n.mode.IsDir() && 0 <= k && k < len(p) ==> f.n.data[old(f.pos)+k] == old(p[k])
-//@   ensures  forall k int :: !f.n.mode.IsDir() && 0 <= k && k < old(f.pos) && k < old(len(f.n.data)) ==> f.n.data[k] == old(f.n.data[k])
-//@   ensures  forall k int :: !f.n.mode.IsDir() && old(len(f.n.data)) <= k && k < old(f.pos) ==> f.n.data[k] == 0
-//@   ensures  forall k int :: !f.n.mode.IsDir() && old(f.pos) + len(p) <= k && k < old(len(f.n.data)) ==> f.n.data[k] == old(f.n.data[k])
-//@   cases f.pos < len(f.n.data) else f.pos == len(f.n.data) else f.pos <= cap(f.n.data)
-//@   loop 1 invariant -1 <= rangeindex && rangeindex < len(hole)
-//@   loop 1 invariant forall k int :: 0 <= k && k <= rangeindex ==> hole[k] == 0
-//@   loop 1 invariant forall k int :: 0 <= k && k < oldLen ==> f.n.data[k] == old(f.n.data[k])
-//@   loop 1 modifies elems(hole)
-//@   modifies f.pos, f.n.data, f.n.modTime, elems(f.n.data), spare(f.n.data)
-//@   allocates
+// memFile.Write: contract in verif_dav2.go.
 
 // ---------------------------------------------------------------------------
 // C46: COPY and MOVE never destroy their source.
@@ -278,7 +185,6 @@ func lemmaF2GuardInsufficient() (ok bool) {
 //@   abstract
 //@   noframe
 //@   requires fs != nil && (hastype(fs, *memFS) ==> fs.(*memFS) != nil)
-//@   requires hastype(fs, Dir) ==> len(fs.(Dir)) > 1 && fs.(Dir)[0] == '/' && (forall i int :: 0 <= i && i < len(fs.(Dir)) && fs.(Dir)[i] == '/' ==> (i+1 >= len(fs.(Dir)) ==> len(fs.(Dir)) == 1) && (i+1 < len(fs.(Dir)) ==> fs.(Dir)[i+1] != '/') && (i+1 < len(fs.(Dir)) && fs.(Dir)[i+1] == '.' ==> i+2 < len(fs.(Dir)) && fs.(Dir)[i+2] != '/') && (i+2 < len(fs.(Dir)) && fs.(Dir)[i+1] == '.' && fs.(Dir)[i+2] == '.' ==> i+3 < len(fs.(Dir)) && fs.(Dir)[i+3] != '/'))
 //@   requires !coversPath(specSlashClean(dst), specSlashClean(src))
 //@   partial pre:copyFiles
 //@   assert at call OpenFile: ($name == src && $flag == os.O_RDONLY) || $name == dst
@@ -294,7 +200,6 @@ func lemmaF2GuardInsufficient() (ok bool) {
 //@ func moveFiles(ctx, fs, src, dst, overwrite) (status, err)
 //@   noframe
 //@   requires fs != nil && (hastype(fs, *memFS) ==> fs.(*memFS) != nil)
-//@   requires hastype(fs, Dir) ==> len(fs.(Dir)) > 1 && fs.(Dir)[0] == '/' && (forall i int :: 0 <= i && i < len(fs.(Dir)) && fs.(Dir)[i] == '/' ==> (i+1 >= len(fs.(Dir)) ==> len(fs.(Dir)) == 1) && (i+1 < len(fs.(Dir)) ==> fs.(Dir)[i+1] != '/') && (i+1 < len(fs.(Dir)) && fs.(Dir)[i+1] == '.' ==> i+2 < len(fs.(Dir)) && fs.(Dir)[i+2] != '/') && (i+2 < len(fs.(Dir)) && fs.(Dir)[i+1] == '.' && fs.(Dir)[i+2] == '.' ==> i+3 < len(fs.(Dir)) && fs.(Dir)[i+3] != '/'))
 //@   requires !coversPath(specSlashClean(dst), specSlashClean(src))
 //@   ghost removed += 1 at call RemoveAll
 //@   ghost renamed += 1 at call Rename
@@ -317,7 +222,6 @@ func lemmaF2GuardInsufficient() (ok bool) {
 //@   usebody slashClean
 //@   noframe
 //@   requires h != nil && r != nil && r.URL != nil && h.FileSystem != nil && (hastype(h.FileSystem, *memFS) ==> h.FileSystem.(*memFS) != nil)
-//@   requires hastype(h.FileSystem, Dir) ==> len(h.FileSystem.(Dir)) > 1 && h.FileSystem.(Dir)[0] == '/' && (forall i int :: 0 <= i && i < len(h.FileSystem.(Dir)) && h.FileSystem.(Dir)[i] == '/' ==> (i+1 >= len(h.FileSystem.(Dir)) ==> len(h.FileSystem.(Dir)) == 1) && (i+1 < len(h.FileSystem.(Dir)) ==> h.FileSystem.(Dir)[i+1] != '/') && (i+1 < len(h.FileSystem.(Dir)) && h.FileSystem.(Dir)[i+1] == '.' ==> i+2 < len(h.FileSystem.(Dir)) && h.FileSystem.(Dir)[i+2] != '/') && (i+2 < len(h.FileSystem.(Dir)) && h.FileSystem.(Dir)[i+1] == '.' && h.FileSystem.(Dir)[i+2] == '.' ==> i+3 < len(h.FileSystem.(Dir)) && h.FileSystem.(Dir)[i+3] != '/'))
 
 // ---------------------------------------------------------------------------
 // C44 (partial): memFS refusal clauses.
